@@ -600,6 +600,25 @@ Lemma spelling_outside strtod i2d o t l l' :
   classify_num strtod l = classify_num strtod l' -> load_number strtod i2d o t l = load_number strtod i2d o t l'.
 Proof. unfold load_number. intros ->. reflexivity. Qed.
 
+(* the class, as a boolean: the reader types the two spellings differently (one as an integer, one as a double; two
+   different 64-bit integers cannot have the same value; two doubles on which strtod disagrees; one too big) *)
+Definition spelling_defect (strtod : list N -> option N) (l l' : list N) : bool :=
+  match classify_num strtod l, classify_num strtod l' with
+  | Some (RInt a), Some (RInt b) => negb (a =? b)%Z
+  | Some (RDbl a), Some (RDbl b) => negb (a =? b)
+  | None, None => false
+  | _, _ => true
+  end.
+
+Lemma spelling_outside_b strtod i2d o t l l' :
+  spelling_defect strtod l l' = false -> load_number strtod i2d o t l = load_number strtod i2d o t l'.
+Proof.
+  intros H. apply spelling_outside. unfold spelling_defect in H.
+  destruct (classify_num strtod l) as [[ | ? | na | na | ? | ? | ? ]|], (classify_num strtod l') as [[ | ? | nb | nb | ? | ? | ? ]|]; try discriminate; try reflexivity.
+  - apply negb_false_iff, Z.eqb_eq in H. subst. reflexivity.
+  - apply negb_false_iff, N.eqb_eq in H. subst. reflexivity.
+Qed.
+
 (* member order: a class member is looked up by name (FindMember), so the position of the other members is irrelevant *)
 Lemma find_member_swap m1 a b m2 k : key_eqb (fst a) (fst b) = false ->
   find_member (m1 ++ a :: b :: m2) k = find_member (m1 ++ b :: a :: m2) k.
